@@ -93,16 +93,33 @@ def gen_universe(r):
     return good
 
 
-def make_texts(r, m, n=3):
+def make_texts(r, m, n=3, accept=None):
+    """Texts for a module: derivations from its (effective) grammar, then families of colliding and
+    near-miss variants.  accept(text) -> bool, when given, is used to prefer derivations the
+    grammar really accepts (random predicates and lookaheads make many derivations fail)."""
     sm = spec.Sampler(r, m.rules, m.super_rules)
     out = list(getattr(m, 'fixed_texts', None) or [])
-    for _ in range(0 if out else n):
-        sm.budget = 4000
-        toks = sm.item(m.start, 0)
-        t = spec.join_tokens(r, toks, m.gaps)
-        if len(t) > 60:
-            t = t[:60]
-        out.append(t)
+    if not out:
+        cands = []
+        for k in range(n if accept is None else 4 * n):
+            sm.budget = 4000
+            sm.maxdepth = r.choice([3, 4, 5, 6])
+            toks = sm.item(m.start, 0)
+            t = spec.join_tokens(r, toks, m.gaps)
+            if len(t) > 60:
+                sm.maxdepth = 2
+                sm.budget = 300
+                t = spec.join_tokens(r, sm.item(m.start, 0), m.gaps)[:60]
+            cands.append(t)
+        sm.maxdepth = 6
+        if accept is None:
+            out = cands
+        else:
+            good, bad = [], []
+            for t in cands:
+                (good if (t not in good and accept(t)) else bad).append(t)
+            out = good[:n]
+            out += bad[:max(1, n - len(out))]
     # one longer, multi-line text now and then: reaches the excerpt code on error paths
     if m.gaps and r.random() < 0.2:
         toks = []
